@@ -13,7 +13,7 @@
    recover() and a watchdog), which is exploration, not proof. *)
 From Coq Require Import List NArith.
 From Astisub Require Import Kit.Base Kit.Scan Model.Srt Model.Vtt Model.Ttx Proofs.SrtIOProofs Proofs.VttIOProofs Proofs.TtxTotal.
-From Astisub Require Import Model.Ssa Proofs.SsaIgnore.
+From Astisub Require Import Model.Ssa Proofs.SsaIgnore Model.SsaC Proofs.SsaChk.
 From Astisub Require Import Kit.Chk Model.SrtC Model.VttC Proofs.SrtChk Proofs.VttChk Model.Dur Model.DurC Proofs.DurChk.
 From Astisub Require Import Model.Stl Model.StlIO Proofs.StlBlocks Proofs.StlIOProofs.
 From Astisub Require Import Kit.Xml Model.Ttml Model.PlainTtml Proofs.TtmlBase Proofs.TtmlIO.
@@ -134,3 +134,66 @@ Proof. exact nil_items_skipped. Qed.
 Print Assumptions C08_srt_writer_total_nil_items.
 Print Assumptions C08_vtt_writer_total_nil_items.
 Print Assumptions C08_nil_items_skipped.
+
+(* ---- SSA/ASS, CHECKED transcription (Model/SsaC.v) ----
+   Every run-time panic site of ssa.go -- slice index, slicing, nil dereference, call of a nil func value (the two
+   callbacks of SSAOptions), store into a nil map; the table with the guard that dominates each site is in notes/C04.md,
+   Real panic sites (C08) -- ssa.go -- is an explicit [Panic <line>] behind the code's own guard, so these statements
+   have content: line[1:len(line)-1] behind HasPrefix "[" and HasSuffix "]", line[0] and line[1:] behind len(line) > 0,
+   split[0] and split[1:] behind len(split) < 2, the callbacks behind their nil tests FOR EVERY VALUE OF THE OPTIONS
+   (both nil included), the store into the format map behind the section headers that make it, items[len(format)-1]
+   behind len(format) != 0 and len(items) >= len(format), i[2:] behind HasPrefix "&H", the pending lineItem behind
+   len(matches) > 0, parseDuration's slices (Model/DurC.v); in the writer the nil tests of Metadata, of the elements of
+   Styles (and the look-up of every stored style name), of Item.Style / Item.InlineStyle / LineItem.InlineStyle, of every
+   pointer attribute of script info, styles and events; nil elements of Items are skipped (nonNilItems, [somes]).
+   These are the functions the correspondence suites run (ssareadm with all four combinations of nil / non-nil
+   callbacks, ssawritem, ssawritechunks, ssastyle, ssaevent, ssaitem, ssatext, ssainfo, ...); they agree with the
+   pattern-matching transcriptions on which the fidelity theorems of C04 are stated.  The Examples show that the same
+   steps without their guard do reach the site. *)
+Theorem C08_ssa_checked_reader_total : forall (o : ssa_opts) (ls : list (list N)) (scan_err : bool) (p : N),
+  read_ssa_lines_c o ls scan_err <> Panic p.
+Proof. exact read_ssa_lines_c_no_panic. Qed.
+Theorem C08_ssa_checked_writer_total : forall d order (p : N), write_ssa_c d order <> Panic p.
+Proof. exact write_ssa_c_no_panic. Qed.
+Theorem C08_ssa_checked_reader_agrees : forall o ls e, read_ssa_lines_c o ls e = read_ssa_lines ls e.
+Proof. exact read_ssa_lines_c_ok. Qed.
+Theorem C08_ssa_checked_writer_agrees : forall d order, write_ssa_c d order = write_ssa d order.
+Proof. exact write_ssa_c_ok. Qed.
+Theorem C08_ssa_writer_total_nil_items : forall (items : list (option aitem)) d order p, write_ssa_items_c items d order <> Panic p.
+Proof. exact write_ssa_items_c_no_panic. Qed.
+Theorem C08_ssa_nil_items_skipped : forall (l : list aitem) (a b : list (option aitem)) d order,
+  write_ssa_items_c (map Some l) d order = write_ssa_c (mkAdoc (ad_meta d) (ad_styles d) l) order /\
+  write_ssa_items_c (a ++ None :: b) d order = write_ssa_items_c (a ++ b) d order.
+Proof. exact ssa_nil_items_skipped. Qed.
+(* the row decoders: the empty Format is the one input class on which newSSAEventFromString indexes out of range; the
+   reader tests len(format) == 0 first (L220) *)
+Theorem C08_ssa_checked_event_row : forall header content fmt, fmt <> [] ->
+  event_from_string_c header content fmt = event_from_string header content fmt.
+Proof. exact event_from_string_c_ok. Qed.
+Theorem C08_ssa_checked_style_row : forall content fmt, style_from_string_c content fmt = style_from_string content fmt.
+Proof. exact style_from_string_c_ok. Qed.
+Theorem C08_ssa_event_row_empty_format_panics : forall header content, event_from_string_c header content [] = Panic 977%N.
+Proof. exact event_from_string_c_empty_format. Qed.
+(* a nil OnInvalidLine called without its nil test (what the seeded change C08-ssa-nil-invalid-line-callback does), on
+   the line "no colon here": Panic 198; with the test: the line is skipped *)
+Example C08_ssa_unguarded_callback_panics :
+  ssa_kv_h (deref (so_invalid opts_nil) 198) (mkAcstate SInfo None ainfo0 [] [])
+           [110;111;32;99;111;108;111;110;32;104;101;114;101]%N = Panic 198%N /\
+  ssa_kv_h (on_invalid_c opts_nil) (mkAcstate SInfo None ainfo0 [] [])
+           [110;111;32;99;111;108;111;110;32;104;101;114;101]%N = Ok (mkAcstate SInfo None ainfo0 [] []).
+Proof. exact unguarded_invalid_callback_panics. Qed.
+Example C08_ssa_unguarded_sites_panic :
+  format_store_c None [[84;101;120;116]%N] = Panic 216%N /\
+  slice_range [91%N] 1 (length [91%N] - 1) 162 = Panic 162%N /\
+  deref (@None (list N)) 1112 = Panic 1112%N.
+Proof. repeat split. Qed.
+Print Assumptions C08_ssa_checked_reader_total.
+Print Assumptions C08_ssa_checked_writer_total.
+Print Assumptions C08_ssa_checked_reader_agrees.
+Print Assumptions C08_ssa_checked_writer_agrees.
+Print Assumptions C08_ssa_writer_total_nil_items.
+Print Assumptions C08_ssa_nil_items_skipped.
+Print Assumptions C08_ssa_checked_event_row.
+Print Assumptions C08_ssa_checked_style_row.
+Print Assumptions C08_ssa_event_row_empty_format_panics.
+Print Assumptions C08_ssa_unguarded_callback_panics.
